@@ -179,7 +179,8 @@ def exckind(e):
     msg = re.sub(r"<[^>]*>", "W", msg)
     msg = re.sub(r"\(?-?\d+(, ?-?\d+)*\)?", "N", msg)
     msg = re.sub(r"[^A-Za-z]+", "_", msg).strip("_")
-    names = [f.name for f in traceback.extract_tb(e.__traceback__) if "/urwid/" in f.filename and f.name not in ("cached_render", "finalize")]
+    entry = ("cached_render", "finalize", "render", "keypress", "mouse_event", "calculate_visible", "get_cursor_coords")
+    names = [f.name for f in traceback.extract_tb(e.__traceback__) if "/urwid/" in f.filename and f.name not in entry]
     return f"{type(e).__name__}:{msg[:48]}|in={'>'.join(names[-2:])}"
 
 
